@@ -218,7 +218,7 @@ def run_stage(case, res):
         secs = [60, 600, 3600, 86400, 172800, 90061][case["i"] % 6]
         ov = {case["subproject_task"]: (ns.BaseSubProjectTask, {"unit_timedelta": datetime.timedelta(seconds=secs)})}
         res.count("C16.models_with_subproject_task")
-    m = B.build(spec, task_overrides=ov)
+    m = B.build(spec, task_overrides=ov, share_ids=bool(case["i"] % 3 == 0))
     if case.get("subproject_task") is not None and case["i"] % 2 == 1:
         # a *configured* sub-project task (as set_all_attributes_from_json leaves it)
         sub = m.tasks[case["subproject_task"]]
